@@ -81,6 +81,7 @@ pub struct EDep {
 
 #[derive(Clone, Debug)]
 pub struct Effective {
+    #[allow(dead_code)]
     pub gav: Gav,
     pub repo: usize,
     pub lineage: Vec<Gav>,
@@ -138,7 +139,7 @@ impl<'u> Resolver<'u> {
         let explicit = |d: &Decl, lvl: usize| -> Result<MEntry, String> {
             Ok(MEntry { key: d.key(), version: d.version.clone().ok_or("managed dependency without version")?, scope: d.scope, origin: Origin { level: (lvl - from) as u8, imports: 0 } })
         };
-        let mut imported = |me: &mut Self, d: &Decl, lvl: usize, list: &mut Vec<MEntry>| -> Result<(), String> {
+        let imported = |me: &mut Self, d: &Decl, lvl: usize, list: &mut Vec<MEntry>| -> Result<(), String> {
             if fault == Some(Fault::ImportsIgnored) { return Ok(()); }
             let target = Gav { g: d.group.clone(), a: d.artifact.clone(), v: d.version.clone().ok_or("import without version")? };
             let e = me.effective(&target)?;
@@ -209,6 +210,8 @@ pub struct TNode {
     pub scope: Scope,
     pub repo: usize,
     pub depth: u32,
+    /// scope of the node above (None for roots)
+    pub parent_scope: Option<Scope>,
     /// the declaration that led here (None for roots): index into the parent's effective dependencies
     pub edge: Option<EDep>,
     pub group_inherited: bool,
@@ -224,19 +227,19 @@ pub struct Found { pub coord: Coord, pub scope: Scope, pub repo: usize }
 pub struct TreeBuilder<'r, 'u> { pub r: &'r mut Resolver<'u>, pub budget: usize }
 
 impl TreeBuilder<'_, '_> {
-    pub fn build(&mut self, coord: &Coord, scope: Scope, depth: u32, edge: Option<EDep>) -> Result<TNode, String> {
+    pub fn build(&mut self, coord: &Coord, scope: Scope, depth: u32, edge: Option<EDep>, parent_scope: Option<Scope>) -> Result<TNode, String> {
         if self.budget == 0 { return Err("TOO-BIG".into()); }
         self.budget -= 1;
         if depth > 64 { return Err("dependency cycle".into()); }
         let e = self.r.effective(&coord.gav())?;
         let fault = self.r.opts.fault;
-        let mut node = TNode { coord: coord.clone(), scope, repo: e.repo, depth, edge, group_inherited: e.group_inherited, version_inherited: e.version_inherited, children: vec![], cuts: vec![] };
+        let mut node = TNode { coord: coord.clone(), scope, repo: e.repo, depth, parent_scope, edge, group_inherited: e.group_inherited, version_inherited: e.version_inherited, children: vec![], cuts: vec![] };
         for d in &e.deps {
             let top = d.scope.unwrap_or(Scope::Compile);
             if d.optional && fault != Some(Fault::OptionalKept) { node.cuts.push((scope, top, true)); continue; }
             match scope_table(scope, top, fault) {
                 None => node.cuts.push((scope, top, false)),
-                Some(s) => { let c = self.build(&d.coord, s, depth + 1, Some(d.clone()))?; node.children.push(c); }
+                Some(s) => { let c = self.build(&d.coord, s, depth + 1, Some(d.clone()), Some(scope))?; node.children.push(c); }
             }
         }
         Ok(node)
@@ -246,7 +249,7 @@ impl TreeBuilder<'_, '_> {
 pub fn forest(u: &Universe, opts: Opts, budget: usize) -> Result<Vec<TNode>, String> {
     let mut r = Resolver::new(u, opts);
     let mut b = TreeBuilder { r: &mut r, budget };
-    u.roots.iter().map(|(c, s)| b.build(c, *s, 1, None)).collect()
+    u.roots.iter().map(|(c, s)| b.build(c, *s, 1, None, None)).collect()
 }
 
 pub fn tree_size(f: &[TNode]) -> usize { f.iter().map(|t| 1 + tree_size(&t.children)).sum() }
